@@ -53,10 +53,24 @@ pub struct Chunked {
     pub data: Vec<u8>,
     pub pos: usize,
     pub chunk: usize,
+    /// calls made so far; with `eintr` every even-numbered call (the first, the third, ...)
+    /// reports ErrorKind::Interrupted and moves nothing
+    pub calls: usize,
+    pub eintr: bool,
+}
+
+impl Chunked {
+    fn interrupted(&mut self) -> bool {
+        self.calls += 1;
+        self.eintr && self.calls % 2 == 1
+    }
 }
 
 impl vm_memory::ReadVolatile for Chunked {
     fn read_volatile<B: vm_memory::bitmap::BitmapSlice>(&mut self, buf: &mut vm_memory::VolatileSlice<B>) -> Result<usize, vm_memory::VolatileMemoryError> {
+        if self.interrupted() {
+            return Err(vm_memory::VolatileMemoryError::IOError(std::io::Error::from(std::io::ErrorKind::Interrupted)));
+        }
         let n = buf.len().min(self.chunk).min(self.data.len() - self.pos);
         let r = buf.write(&self.data[self.pos..self.pos + n], 0);
         let _ = r;
@@ -67,6 +81,9 @@ impl vm_memory::ReadVolatile for Chunked {
 
 impl vm_memory::WriteVolatile for Chunked {
     fn write_volatile<B: vm_memory::bitmap::BitmapSlice>(&mut self, buf: &vm_memory::VolatileSlice<B>) -> Result<usize, vm_memory::VolatileMemoryError> {
+        if self.interrupted() {
+            return Err(vm_memory::VolatileMemoryError::IOError(std::io::Error::from(std::io::ErrorKind::Interrupted)));
+        }
         let n = buf.len().min(self.chunk);
         let mut tmp = vec![0u8; n];
         let _ = buf.read(&mut tmp, 0);
@@ -300,7 +317,7 @@ pub fn exec<M: GuestMemory>(m: &M, op: &Op) -> (Out, Vec<u8>) {
         Route::ReadFromShort | Route::ReadExactFromShort => {
             let src_data: Vec<u8> = data.iter().cloned().chain(std::iter::repeat(0x7f).take(op.len)).collect();
             let total = src_data.len();
-            let mut src = Chunked { data: src_data, pos: 0, chunk: 2 };
+            let mut src = Chunked { data: src_data, pos: 0, chunk: 2, calls: 0, eintr: (op.addr as usize).wrapping_add(op.len) % 2 == 1 };
             let r = if op.route == Route::ReadFromShort {
                 cls(m.read_volatile_from(a, &mut src, op.len), Out::Count)
             } else {
@@ -310,7 +327,7 @@ pub fn exec<M: GuestMemory>(m: &M, op: &Op) -> (Out, Vec<u8>) {
             (r, vec![src.pos as u8])
         }
         Route::WriteToShort | Route::WriteAllToShort => {
-            let mut sink = Chunked { data: Vec::new(), pos: 0, chunk: 3 };
+            let mut sink = Chunked { data: Vec::new(), pos: 0, chunk: 3, calls: 0, eintr: (op.addr as usize).wrapping_add(op.len) % 2 == 0 };
             let r = if op.route == Route::WriteToShort {
                 cls(m.write_volatile_to(a, &mut sink, op.len), Out::Count)
             } else {
